@@ -678,7 +678,7 @@ def main(tier, replay):
     common.build('asan')
     binary = common.harness('vlua', 'asan')
     if tier == 'quick':
-        n_val, chunk, maxarr = 4000, 250, 14
+        n_val, chunk, maxarr = 12000, 250, 14
     else:
         n_val, chunk, maxarr = 100000, 1000, 40
     jobs = [(binary, chk.rng.getrandbits(48), min(chunk, n_val - i), maxarr) for i in range(0, n_val, chunk)]
